@@ -188,7 +188,7 @@ def run(ctx):
     ctx.assumptions += ["RENAME_EXCHANGE available on the storage file system (checked: the exchange op is observed)",
                         "crashing only at mutating calls is complete: the on-disk state is constant between two of them"]
     kinds = scenarios.kinds()
-    quick = ["put_new", "put_whole_replace", "delete_calendar", "move_across", "proppatch", "mkcalendar", "first_login", "delete_item"]
+    quick = ["put_new", "put_overwrite", "put_whole_replace", "delete_calendar", "move_across", "proppatch", "mkcalendar", "first_login", "delete_item"]
     names = quick if ctx.tier == "quick" else list(kinds)
     shapes = [0] if ctx.tier == "quick" else [0, 2]
     root = tempfile.mkdtemp(prefix="rverif-c02-")
@@ -196,7 +196,9 @@ def run(ctx):
         for shape in shapes:
             for name in names:
                 if ctx.tier == "quick":
-                    errnos = [errno.ENOSPC] if name in ("put_new", "put_whole_replace", "delete_calendar") else []
+                    errnos = {"put_new": [errno.ENOSPC], "put_whole_replace": [errno.ENOSPC, errno.EACCES], "delete_calendar": [errno.ENOSPC],
+                              "put_overwrite": [errno.EACCES, errno.EIO], "proppatch": [errno.EACCES], "mkcalendar": [errno.EACCES],
+                              "move_across": [errno.EIO]}.get(name, [])
                 else:
                     errnos = [errno.ENOSPC, errno.EACCES, errno.EIO]
                 one_kind(ctx, name, kinds[name], shape, errnos, root)
